@@ -346,6 +346,55 @@ func c13Binary(r *Run) {
 	defer os.RemoveAll(dir)
 	idp := newFakeIdP()
 	defer idp.close()
+	// the ID-token verifier as main() builds it (issuer, client id, keys, clock): every failure point of the
+	// property at the real executable
+	func() {
+		port := freePort()
+		ta := true
+		y := &gwYaml{port: port, tlsOn: false, auth: []string{"openid"}, hosts: []string{"10.0.0.1:3389"}, idpURL: idp.srv.URL, tokenAuth: &ta, keys: map[string]string{}}
+		p := startBinary(dir, y.render(), nil, port, false)
+		defer p.stop()
+		if !p.running() {
+			r.Note("binary did not start: " + tail(p.stderr.String(), 300))
+			return
+		}
+		base := fmt.Sprintf("http://127.0.0.1:%d", port)
+		otherKey, _ := rsa.GenerateKey(rand.Reader, 2048)
+		now := time.Now().Unix()
+		for _, tc := range []struct {
+			name  string
+			extra map[string]interface{}
+			key   *rsa.PrivateKey
+			ok    bool
+		}{
+			{"valid ID token", map[string]interface{}{"preferred_username": "alice"}, nil, true},
+			{"ID token expired an hour ago", map[string]interface{}{"preferred_username": "alice", "exp": now - 3600}, nil, false},
+			{"ID token expired twenty seconds ago", map[string]interface{}{"preferred_username": "alice", "exp": now - 20}, nil, false},
+			{"ID token expired two seconds ago", map[string]interface{}{"preferred_username": "alice", "exp": now - 2}, nil, false},
+			{"ID token for another client id", map[string]interface{}{"preferred_username": "alice", "aud": "another-client"}, nil, false},
+			{"ID token of another issuer", map[string]interface{}{"preferred_username": "alice", "iss": "https://idp.invalid"}, nil, false},
+			{"ID token signed by another key", map[string]interface{}{"preferred_username": "alice"}, otherKey, false},
+			{"ID token without a user-name claim", map[string]interface{}{}, nil, false},
+			{"valid ID token with the upn claim", map[string]interface{}{"upn": "alice@example.com"}, nil, true},
+		} {
+			jar, _ := cookiejar.New(nil)
+			cl := &http.Client{Jar: jar, CheckRedirect: func(*http.Request, []*http.Request) error { return http.ErrUseLastResponse }, Timeout: 8 * time.Second}
+			cb, tok := loginWith(cl, base, idp, tc.extra, tc.key)
+			r.Count("binary-verifier:" + tc.name)
+			r.Dist("binary:verifier")
+			rep := fmt.Sprintf("real binary, authentication openid; the IdP hands out: %s\ncallback answered %d; /connect afterwards %s\n", tc.name, cb, map[bool]string{true: "served a connection file", false: "did not serve a file"}[tok != ""])
+			if cb < 0 {
+				r.Inconclusive()
+				continue
+			}
+			if !tc.ok && tok != "" {
+				r.Violation("c13-auth-without-login", "a session became authenticated without a verified OpenID login", rep)
+			}
+			if tc.ok && tok == "" {
+				r.Violation("c13-login-lost", "a session that completed the login is not authenticated at the instance that logged it in", rep)
+			}
+		}
+	}()
 	for _, store := range []string{"cookie", "file"} {
 		mk := func() *gwProc {
 			port := freePort()
